@@ -189,16 +189,32 @@ func TestC20_Listeners(t *testing.T) {
 					}
 					return out
 				}
-				time.Sleep(30 * time.Millisecond)
+				// counts are final once two snapshots 100 ms apart agree (listeners run on the
+				// connection's own goroutine shortly after the closed flag is set; lateness is
+				// not a violation, so wait for stability instead of assuming a deadline)
+				time.Sleep(20 * time.Millisecond)
 				s1 := snapshot()
-				time.Sleep(100 * time.Millisecond)
-				s2 := snapshot()
+				var s2 []int32
+				for tries := 0; ; tries++ {
+					time.Sleep(100 * time.Millisecond)
+					s2 = snapshot()
+					same := true
+					for i := range s1 {
+						if s1[i] != s2[i] {
+							same = false
+						}
+					}
+					if same || tries > 100 {
+						break
+					}
+					s1 = s2
+				}
 				for i, r := range regs {
 					n := s2[i]
 					desc := fmt.Sprintf("registration #%d (%s, ok=%v, unsub=%d)", i, map[int]string{0: "OnClosed", 1: "OnDisconnected"}[r.via], r.ok, r.unsub)
 					switch {
 					case s1[i] != n:
-						fail = failure{"listeners:late-call", desc + " was still being called after quiescence"}
+						fail = failure{"listeners:never-quiescent", desc + ": call count still changing after 10 s"}
 					case r.flagBad.Load():
 						fail = failure{"listeners:flag-not-set", desc + ": listener ran while Closed() was not yet set"}
 					case !r.ok && n != 0:
